@@ -209,7 +209,11 @@ func (s *ModelDiscoveryService) discoverConcurrently(ctx context.Context, endpoi
 		workerCount = len(endpoints)
 	}
 
-	eg, ctx := errgroup.WithContext(ctx)
+	// The group's derived context is deliberately not used: it is cancelled as soon as one endpoint
+	// fails, which made the in-flight discoveries of healthy endpoints fail with "context canceled"
+	// and count as failures of their own (five such rounds disabled their discovery altogether).
+	// One endpoint's bad listing is that endpoint's problem; the others finish under the caller's context.
+	eg, _ := errgroup.WithContext(ctx)
 	eg.SetLimit(workerCount)
 
 	for _, ep := range endpoints {
